@@ -302,7 +302,7 @@ func (fc *FuncCtx) evalSpec(st *State, e *SExpr, sc *specCtx) Val {
 	case "unary":
 		if e.Name == "*" {
 			p := fc.evalSpec(st, e.Args[0], sc)
-			if isStructPtr(p.Typ) {
+			if isStructPtr(p.Typ) && !strings.HasSuffix(fc.bindOf(p.Typ), "ptr") {
 				return Val{T: p.T, Typ: pointee(p.Typ)}
 			}
 			l := fc.derefLoc(st, p, token.NoPos)
@@ -620,7 +620,7 @@ func (fc *FuncCtx) specLoc(st *State, e *SExpr, sc *specCtx) *Loc {
 	case "unary":
 		if e.Name == "*" {
 			p := fc.evalSpec(st, e.Args[0], sc)
-			if isStructPtr(p.Typ) {
+			if isStructPtr(p.Typ) && !strings.HasSuffix(fc.bindOf(p.Typ), "ptr") {
 				return nil
 			}
 			return fc.derefLoc(st, p, token.NoPos)
